@@ -7,6 +7,7 @@ use std::sync::{Arc, Mutex};
 use std::thread::{self, JoinHandle as ThreadJoinHandle};
 use std::{fmt, mem, panic};
 
+#[cfg_attr(folo_verif, allow(unused_imports, reason = "the hook wraps the blocking wait"))]
 use event_listener::{Listener, listener};
 use many_cpus::{ProcessorId, SystemHardware};
 use new_zealand::nz;
@@ -67,12 +68,21 @@ impl fmt::Debug for PoolInner {
 impl PoolInner {
     #[cfg_attr(test, mutants::skip)] // Removing this causes timeouts (workers never start)
     pub(crate) fn ensure_workers_spawned(self: &Arc<Self>, processor_id: ProcessorId) {
+        #[cfg(folo_verif)]
+        crate::verif::point("ens.check", u64::from(processor_id));
+
         // If the pool is shutting down, we should not spawn new workers.
         if self.shutdown.load(Ordering::Relaxed) {
             return;
         }
 
+        #[cfg(folo_verif)]
+        crate::verif::point("ens.state", u64::from(processor_id));
+
         let state = self.registry.get_or_init(processor_id);
+
+        #[cfg(folo_verif)]
+        crate::verif::point("ens.cas", u64::from(processor_id));
 
         // Acquire on failure to synchronize with the Release on successful exchange.
         // AcqRel on success ensures:
@@ -87,17 +97,26 @@ impl PoolInner {
             return;
         }
 
+        #[cfg(folo_verif)]
+        crate::verif::point("ens.spawn", u64::from(processor_id));
+
         let workers_count = self.workers_per_processor.get();
         let mut new_handles = Vec::with_capacity(workers_count as usize);
 
         for worker_index in 0..workers_count {
             let inner_clone = Arc::clone(self);
+            #[cfg(folo_verif)]
+            let verif_token =
+                crate::verif::worker_spawning(u64::from(processor_id), u64::from(worker_index));
             let handle = thread::Builder::new()
                 .name(format!(
                     "{}-{}-{}",
                     inner_clone.pool_name, processor_id, worker_index
                 ))
                 .spawn(move || {
+                    #[cfg(folo_verif)]
+                    let _verif_guard = crate::verif::worker_started(verif_token);
+
                     // Pin worker thread to the target processor for cache locality.
                     if let Some(processor_set) = inner_clone
                         .hardware
@@ -139,7 +158,14 @@ impl PoolInner {
             hook();
         }
 
+        #[cfg(folo_verif)]
+        crate::verif::point("ens.lock", u64::from(processor_id));
+
+        #[cfg(not(folo_verif))]
         let mut worker_handles = self.worker_handles.lock().expect(NEVER_POISONED);
+        #[cfg(folo_verif)]
+        let mut worker_handles =
+            crate::verif::lock(&self.worker_handles, "ens.lock").expect(NEVER_POISONED);
 
         // Re-check shutdown flag under the lock to avoid race condition where
         // join_all_workers() runs concurrently and we add new handles after it
@@ -151,6 +177,12 @@ impl PoolInner {
         // them immediately.
         if self.shutdown.load(Ordering::Acquire) {
             for handle in new_handles {
+                #[cfg(folo_verif)]
+                crate::verif::point("ens.join", u64::from(processor_id));
+
+                #[cfg(folo_verif)]
+                let handle = crate::verif::CoopJoin::new(handle, "ens.join");
+
                 if let Err(payload) = handle.join() {
                     panic::resume_unwind(payload);
                 }
@@ -166,7 +198,13 @@ impl PoolInner {
         // Signal shutdown to prevent new workers from being spawned.
         // We use Release to ensure this store is visible to ensure_workers_spawned
         // when it acquires the lock.
+        #[cfg(folo_verif)]
+        crate::verif::point("d.store", 0);
+
         self.shutdown.store(true, Ordering::Release);
+
+        #[cfg(folo_verif)]
+        crate::verif::event("shutdown_stored", 0, 0);
 
         // Signal all existing workers to exit.
         self.registry.signal_shutdown_all();
@@ -183,9 +221,23 @@ impl PoolInner {
         // shared state is held while we wait. A worker that calls back into the
         // pool (for example to spawn additional workers) sees the shutdown flag and
         // exits without touching the now-empty handle list.
+        #[cfg(folo_verif)]
+        crate::verif::point("d.take", 0);
+
+        #[cfg(not(folo_verif))]
         let handles = mem::take(&mut *self.worker_handles.lock().expect(NEVER_POISONED));
+        #[cfg(folo_verif)]
+        let handles = mem::take(
+            &mut *crate::verif::lock(&self.worker_handles, "d.take").expect(NEVER_POISONED),
+        );
 
         for handle in handles {
+            #[cfg(folo_verif)]
+            crate::verif::point("d.join", 0);
+
+            #[cfg(folo_verif)]
+            let handle = crate::verif::CoopJoin::new(handle, "d.join");
+
             if let Err(payload) = handle.join() {
                 // Worker threads run inside a panic trap and should never panic. If one does,
                 // something is very wrong with the pool infrastructure. We propagate the panic
@@ -198,6 +250,9 @@ impl PoolInner {
 
 #[cfg_attr(test, mutants::skip)] // Removing this causes timeouts; condition logic is race-sensitive
 fn worker_loop(inner: &PoolInner, processor_id: ProcessorId, worker_index: u32) {
+    #[cfg(folo_verif)]
+    crate::verif::point("w.init", u64::from(processor_id));
+
     let state = inner.registry.get_or_init(processor_id);
     let core = WorkerCore::new(
         &state.urgent_queue,
@@ -229,7 +284,13 @@ fn worker_loop(inner: &PoolInner, processor_id: ProcessorId, worker_index: u32) 
                 break;
             }
             IterationResult::WaitingForWork => {
+                #[cfg(folo_verif)]
+                crate::verif::point("w.listen", u64::from(processor_id));
+
                 listener!(state.wake_event => listener);
+
+                #[cfg(folo_verif)]
+                crate::verif::point("w.re_u", u64::from(processor_id));
 
                 // Re-check after registering listener to avoid lost wakeups.
                 // Acquire ordering synchronizes with Release in signal_shutdown and task push.
@@ -240,7 +301,13 @@ fn worker_loop(inner: &PoolInner, processor_id: ProcessorId, worker_index: u32) 
                     continue;
                 }
 
+                #[cfg(folo_verif)]
+                crate::verif::point("w.wait", u64::from(processor_id));
+
+                #[cfg(not(folo_verif))]
                 listener.wait();
+                #[cfg(folo_verif)]
+                crate::verif::wait_listener(listener);
             }
         }
     }
